@@ -201,6 +201,9 @@ class Sim:
     def c02_class(self, history, query, outs):
         return self.name + '_c02_query_not_answered'
 
+    def cross_check(self, s, query, reply):
+        return None
+
     def c04_class(self, kind, stream, reply):
         return self.name + '_c04_' + kind
 
@@ -663,6 +666,9 @@ def check_c02(sim, history, query):
         return (sim.c02_class(history, query, outs), 'query %r not answered with exactly one reply: %r' % (query, _outs_repr(outs)))
     if not sim.reply_ok(last[1]):
         return (sim.name + '_c02_malformed_answer', 'query %r answered with malformed reply %r' % (query, last[1]))
+    err = sim.cross_check(s, query, last[1])
+    if err:
+        return (sim.name + '_c02_inconsistent_answer', err)
     return None
 
 
@@ -728,7 +734,33 @@ def check_c05_refused(sim, history, line):
     return None
 
 
-CHECKS = dict(c03=check_c03, c02=check_c02, c04=check_c04, c05_readback=check_c05_readback,
+def check_c03_threads(sim, a, b, schedule):
+    """two handler threads typing at the same time: each thread's outcomes are those it gets when the
+    two command lines are sent one after the other (no residue across threads)"""
+    s = sim.make()
+    ia = ib = 0
+    inter = []
+    for pick in schedule:
+        if pick == 0 and ia < len(a):
+            inter.append(a[ia]); ia += 1
+        elif ib < len(b):
+            inter.append(b[ib]); ib += 1
+        elif ia < len(a):
+            inter.append(a[ia]); ia += 1
+    inter += a[ia:] + b[ib:]
+    outs = sim.feed(s, inter)
+    oa = [o for (t, _), o in zip(inter, outs) if t == a[0][0]]
+    ob = [o for (t, _), o in zip(inter, outs) if t == b[0][0]]
+    s2 = sim.make()
+    ra = sim.feed(s2, a)
+    rb = sim.feed(s2, b)
+    if oa != ra or ob != rb or sim.device(s) != sim.device(s2) or not sim.buffer_idle(s):
+        return (sim.name + '_c03_threads_interfere', 'interleaved threads answered %r / %r, alone %r / %r'
+                % (_outs_repr(oa), _outs_repr(ob), _outs_repr(ra), _outs_repr(rb)))
+    return None
+
+
+CHECKS = dict(c03_threads=check_c03_threads, c03=check_c03, c02=check_c02, c04=check_c04, c05_readback=check_c05_readback,
               c05_refused=check_c05_refused)
 
 
@@ -748,6 +780,11 @@ def oracle_c03(ctx, sim):
         probe = sim.probe(rng) if rng.random() < 0.6 else sim.valid_line(rng)
         noise = rng.choice(sim.noise_lines)
         _report(ctx, sim, 'c03', check_c03(sim, h, probe, noise), history=h, probe=probe, noise=noise)
+    if hasattr(sim, 'thread_pair'):
+        for _ in range(ctx.n(200, 3000)):
+            a, b = sim.thread_pair(rng)
+            schedule = [rng.randrange(2) for _ in range(len(a) + len(b))]
+            _report(ctx, sim, 'c03_threads', check_c03_threads(sim, a, b, schedule), a=a, b=b, schedule=schedule)
 
 
 def oracle_c02(ctx, sim):
@@ -1171,6 +1208,21 @@ class WLO(Sim):
             return 'wlo_partial_line_exception'
         return 'wlo_c05_refused_write_changed_state'
 
+    combined = {'get W_LO_Pols\r\n': ('get W_LO_PolH\r\n', 'get W_LO_PolV\r\n'),
+                'get LO_atts\r\n': ('get LO_att_PolH\r\n', 'get LO_att_PolV\r\n')}
+
+    def cross_check(self, s, query, reply):
+        """a combined getter reports the two values the individual getters report"""
+        if query not in self.combined:
+            return None
+        parts = [self.feed(s, q)[-1] for q in self.combined[query]]
+        if any(p[0] != 'R' for p in parts):
+            return None
+        want = parts[0][1][:-2] + ',' + parts[1][1]
+        if reply != want:
+            return 'combined reply %r differs from the individual read-backs %r' % (reply, want)
+        return None
+
     def c04_class(self, kind, stream, reply):
         if kind == 'charset' and reply.endswith('.\r\n'):
             return 'wlo_ref_capitalize_non_latin1'
@@ -1438,6 +1490,16 @@ class Weather(Sim):
 
     def probe(self, rng):
         return self.T('r %s\n' % rng.choice(self.ids), rng.choice(self.TIDS))
+
+    def thread_pair(self, rng):
+        """two complete command lines of two threads about two different sensors"""
+        i, j = rng.sample(self.ids, 2)
+        def line(sid, tid):
+            r = rng.random()
+            text = ('r %s' % sid if r < 0.4 else 'w %s %s %s' % (sid, self.val_tok(rng), self.date_tok(rng)) if r < 0.8
+                    else rng.choice(['r %s 1 2', 'w %s', 'x%s', 'r  %s ']) % sid)
+            return self.T(text + '\n', tid)
+        return line(i, 1), line(j, 2)
 
     def all_queries(self, rng):
         qs = [self.T('r %s\n' % i, rng.choice(self.TIDS)) for i in rng.sample(self.ids, 6)]
